@@ -4,7 +4,7 @@
 //! rounding envelope): interval, constant, monotone, affine, Ema's recursion, Alma's kernel.
 
 use super::{hash_str, mix, show_inputs};
-use crate::dynview::{build_plain, Kind, Spec};
+use crate::dynview::{Kind, Spec};
 use crate::gen::{self, Class, Rng};
 use crate::oracle::window::{self as ow, Ex};
 use crate::report::{guarded, Cfg, Monitor, Tier, TrialOut};
@@ -45,17 +45,37 @@ fn variants(which: usize, n: usize, rng: &mut Rng) -> Kind {
     }
 }
 
+/// Drive the view over a `Script` inner view that delivers nothing for 0..3 updates (a warming-up
+/// inner view) and then the values `xs`; returns the outputs from the first delivered value on.
+/// While nothing has been delivered the view must report nothing (else: None, reported as a panic-
+/// free failure through the `early` flag).
 fn drive<T: Scalar>(k: Kind, xs: &[f64]) -> Option<Vec<Option<T>>> {
+    let p = (gen::hash_f64s(xs) % 4) as usize;
     guarded(|| {
-        let mut v = build_plain::<T>(&Spec::leaf(k));
-        xs.iter()
-            .map(|x| {
-                v.update(T::of(*x));
-                v.last()
-            })
-            .collect()
+        let mut env = crate::dynview::Env::<T>::new();
+        let mut outs: Vec<Option<T>> = vec![None; p];
+        outs.extend(xs.iter().map(|x| Some(T::of(*x))));
+        env.add_script(outs);
+        let mut v = crate::dynview::build(&Spec::un(k, Spec::Script(0)), &mut env);
+        let mut res = Vec::with_capacity(xs.len());
+        for i in 0..p + xs.len() {
+            // the raw input is unrelated noise: the view must only see what its inner view delivers
+            v.update(T::of(1000.0 + i as f64));
+            let l = v.last();
+            if i < p {
+                if l.is_some() {
+                    EARLY.with(|e| e.set(true));
+                }
+            } else {
+                res.push(l);
+            }
+        }
+        res
     })
     .ok()
+}
+thread_local! {
+    static EARLY: std::cell::Cell<bool> = const { std::cell::Cell::new(false) };
 }
 
 /// the values the view averages at step t (last N for Sma/Alma, all so far for Ema)
@@ -309,10 +329,14 @@ impl Monitor for C04 {
                 }
             };
         }
+        EARLY.with(|e| e.set(false));
         if exact {
             go!(Xq)
         } else {
             go!(f64)
+        }
+        if EARLY.with(|e| e.get()) {
+            out.violation(k.name(), "reports-before-anything-was-delivered", "any", format!("{}: last() returned a value while its inner view had delivered nothing yet", Spec::un(k, Spec::Script(0)).show()));
         }
     }
     fn required_cells(&self, _cfg: &Cfg) -> Vec<String> {
@@ -327,7 +351,7 @@ impl Monitor for C04 {
         v
     }
     fn rule(&self) -> String {
-        "trial = (Sma | Ema with default or custom alpha | Alma with default or custom sigma/offset; clause; N; input class incl. streams containing or averaging to exactly 0; scalar). interval: output inside [min,max] of the averaged values; constant: reproduced; monotone: y >= x pointwise (one sample, a block or everything raised) implies out(y) >= out(x) at every step; affine: view(a x + b) = a view(x) + b; definition: arithmetic mean / e_0 = x_0, e_t = w x_t + (1-w) e_(t-1) / normalised Gaussian-kernel mean (both weight-assignment readings the statements admit). Exact inequalities and equalities at the exact scalar, a-priori rounding envelope at f64. distinct = distinct (view+parameters, clause, scalar, input hash)".into()
+        "trial = (Sma | Ema with default or custom alpha | Alma with default or custom sigma/offset; clause; N; input class incl. streams containing or averaging to exactly 0; scalar); the view sits over a Script inner view that delivers nothing for 0..3 updates and then the stream, while the raw inputs are unrelated noise. interval: output inside [min,max] of the averaged values; constant: reproduced; monotone: y >= x pointwise (one sample, a block or everything raised) implies out(y) >= out(x) at every step; affine: view(a x + b) = a view(x) + b; definition: arithmetic mean / e_0 = x_0, e_t = w x_t + (1-w) e_(t-1) / normalised Gaussian-kernel mean (both weight-assignment readings the statements admit). Exact inequalities and equalities at the exact scalar, a-priori rounding envelope at f64. distinct = distinct (view+parameters, clause, scalar, input hash)".into()
     }
     fn assumptions(&self) -> Vec<String> {
         vec![
